@@ -5,6 +5,9 @@
 //! returned at that moment (compositional judging: stateless nodes, pure reads).
 
 use crate::core::{guarded, Ctx, Tier};
+use crate::node_models::{convert_model, EwmaModel, Exp, FreezeModel, IntDerModel, PidModel};
+use crate::node_oracles::check_exp;
+use rrtk::streams::control::{EWMAStream, PIDControllerStream};
 use crate::plan::{fb, Plan};
 use crate::rng::Rng;
 use crate::stubs::*;
@@ -67,6 +70,26 @@ pub fn out_ty(kind: &str) -> Ty {
         Ty::F
     }
 }
+/// Stateful nodes of the mixed graph (W-stream): they change only when the scheduler updates them.
+pub fn is_stateful(kind: &str) -> bool {
+    matches!(kind, "pid.f" | "ewma.f" | "q2f.f" | "freeze.f" | "integral.q" | "derivative.q" | "ewma.q")
+}
+fn home_of(kind: &str) -> &'static str {
+    match kind {
+        "pid.f" => "C04",
+        "ewma.f" | "ewma.q" => "C12",
+        "integral.q" | "derivative.q" => "C10",
+        _ => "C05",
+    }
+}
+enum SModel {
+    Pid(PidModel),
+    Ewma(EwmaModel),
+    IntDer(IntDerModel),
+    Conv,
+    Freeze(FreezeModel),
+}
+
 fn base(kind: &str) -> &str {
     kind.split('.').next().unwrap_or(kind)
 }
@@ -213,7 +236,39 @@ macro_rules! build_num {
     }};
 }
 
-fn build_node(rig: &mut Rig, idx: usize, spec: &NodeSpec) -> bool {
+fn build_stateful(rig: &Rig, idx: usize, spec: &NodeSpec, plan: &Plan) -> (Option<Reference<dyn Getter<f32, E>>>, Option<Reference<dyn Getter<Quantity, E>>>) {
+    let key = |k: &str| plan.getf(&format!("n{}.{}", idx, k));
+    let first = spec.ins.first().map(|s| s.as_str()).unwrap_or("");
+    match spec.kind.as_str() {
+        "pid.f" => (
+            f32::slot(rig, first).map(|i| dyn_getter::<f32, _>(PIDControllerStream::new(i, key("sp"), PIDKValues::new(key("kp"), key("ki"), key("kd"))))),
+            None,
+        ),
+        "ewma.f" => (f32::slot(rig, first).map(|i| dyn_getter::<f32, _>(EWMAStream::<f32, _, E>::new(i, key("s")))), None),
+        "q2f.f" => (Quantity::slot(rig, first).map(|i| dyn_getter::<f32, _>(QuantityToFloat::new(i))), None),
+        "freeze.f" => {
+            let c = bool::slot(rig, first);
+            let i = f32::slot(rig, spec.ins.get(1).map(|s| s.as_str()).unwrap_or(""));
+            match (c, i) {
+                (Some(c), Some(i)) => (Some(dyn_getter::<f32, _>(FreezeStream::<f32, _, _, E>::new(c, i))), None),
+                _ => (None, None),
+            }
+        }
+        "integral.q" => (None, Quantity::slot(rig, first).map(|i| dyn_getter::<Quantity, _>(IntegralStream::new(i)))),
+        "derivative.q" => (None, Quantity::slot(rig, first).map(|i| dyn_getter::<Quantity, _>(DerivativeStream::new(i)))),
+        "ewma.q" => (None, Quantity::slot(rig, first).map(|i| dyn_getter::<Quantity, _>(EWMAStream::<Quantity, _, E>::new(i, key("s"))))),
+        _ => (None, None),
+    }
+}
+
+fn build_node(rig: &mut Rig, idx: usize, spec: &NodeSpec, plan: &Plan) -> bool {
+    if is_stateful(&spec.kind) {
+        let (f, q) = build_stateful(rig, idx, spec, plan);
+        let ok = f.is_some() || q.is_some();
+        rig.nf[idx] = f;
+        rig.nq[idx] = q;
+        return ok;
+    }
     match out_ty(&spec.kind) {
         Ty::F => {
             let n = if base(&spec.kind) == "exp" {
@@ -488,7 +543,7 @@ pub fn execute(plan: &Plan, ctx: &mut Ctx) {
     };
     let mut alive = vec![false; specs.len()];
     for (i, s) in specs.iter().enumerate() {
-        let ok = guarded(|| build_node(&mut rig, i, s));
+        let ok = guarded(|| build_node(&mut rig, i, s, plan));
         match ok {
             Ok(b) => alive[i] = b,
             Err(p) => {
@@ -504,6 +559,27 @@ pub fn execute(plan: &Plan, ctx: &mut Ctx) {
         ck: vec![Ok(0); NC],
     };
     let qunit = (plan.get("qm") as i8, plan.get("qs") as i8);
+    // stateful nodes of the mixed graph: model, expected cached output, input seen at the last update
+    let mut smodels: Vec<Option<SModel>> = specs
+        .iter()
+        .enumerate()
+        .map(|(i, s)| {
+            let key = |k: &str| plan.getf(&format!("n{}.{}", i, k));
+            match s.kind.as_str() {
+                "pid.f" => Some(SModel::Pid(PidModel::with(key("kp"), key("ki"), key("kd"), key("sp")))),
+                "ewma.f" => Some(SModel::Ewma(EwmaModel::with(key("s"), false))),
+                "ewma.q" => Some(SModel::Ewma(EwmaModel::with(key("s"), true))),
+                "integral.q" => Some(SModel::IntDer(IntDerModel::new(true))),
+                "derivative.q" => Some(SModel::IntDer(IntDerModel::new(false))),
+                "q2f.f" => Some(SModel::Conv),
+                "freeze.f" => Some(SModel::Freeze(FreezeModel::new())),
+                _ => None,
+            }
+        })
+        .collect();
+    let mut sexp: Vec<Exp> = vec![Exp::None; specs.len()];
+    let mut slast_in: Vec<Option<Out>> = vec![None; specs.len()];
+    let mut prev_outs: Vec<Out> = vec![Out::None; specs.len()];
     let mut tmin: Option<i64> = None;
     let mut tmax_seen: Option<i64> = None;
     for (oi, op) in plan.ops.iter().enumerate() {
@@ -580,6 +656,57 @@ pub fn execute(plan: &Plan, ctx: &mut Ctx) {
                 twice = true;
                 ctx.count("fault.extra_get");
             }
+            "UN" if i < specs.len() && alive[i] && smodels[i].is_some() => {
+                // the scheduler updates one stateful node; its inputs deliver what they deliver *now*
+                let spec = &specs[i];
+                let inp = |k: usize| -> Out {
+                    match spec.ins.get(k) {
+                        Some(n) => match n.strip_prefix('n') {
+                            Some(rest) => prev_outs.get(rest.parse::<usize>().unwrap_or(usize::MAX)).copied().unwrap_or(Out::None),
+                            None => leaf_out(&script, n).unwrap_or(Out::None),
+                        },
+                        None => Out::None,
+                    }
+                };
+                let r = guarded(|| match out_ty(&spec.kind) {
+                    Ty::Q => norm_unit(&rig.nq[i].as_ref().unwrap().borrow_mut().update()),
+                    _ => norm_unit(&rig.nf[i].as_ref().unwrap().borrow_mut().update()),
+                });
+                if let Err(p) = r {
+                    ctx.violate(home_of(&spec.kind), "panic", &spec.kind, format!("op {}: update() of node {} ({}) panicked: {:?} at {}", oi, i, spec.kind, p.msg, p.short_loc()));
+                    return;
+                }
+                let in0 = inp(0);
+                let prev_impl = prev_outs[i].f32();
+                let step = match smodels[i].as_mut().unwrap() {
+                    SModel::Pid(m) => m.update(&in0),
+                    SModel::Ewma(m) => m.update(&in0, prev_impl),
+                    SModel::IntDer(m) => m.update(&in0, prev_impl),
+                    SModel::Conv => crate::node_models::Step { out: convert_model("q2f", plan, &in0), ret: None, reset: true, class: 0 },
+                    SModel::Freeze(m) => {
+                        let input = inp(1);
+                        let st = m.update(&in0, &input);
+                        slast_in[i] = Some(input);
+                        st
+                    }
+                };
+                if !matches!(smodels[i], Some(SModel::Freeze(_))) {
+                    slast_in[i] = Some(in0);
+                }
+                if let (Some(want), Ok(got)) = (step.ret, &r) {
+                    if *got != want {
+                        ctx.violate(home_of(&spec.kind), "update_return", &spec.kind, format!("op {}: update() of node {} returned {:?}, expected {:?}", oi, i, got, want));
+                    }
+                }
+                sexp[i] = step.out;
+                ctx.count("n.stateful_update_in_graph");
+                if !in0.is_some() {
+                    ctx.count("reach.graph_fault_reaches_stateful_node");
+                }
+                if step.reset {
+                    ctx.nontrivial = true;
+                }
+            }
             _ => {}
         }
         if matches!(op.code.as_str(), "LF" | "LB" | "LQ") {
@@ -615,6 +742,29 @@ pub fn execute(plan: &Plan, ctx: &mut Ctx) {
                 if again != got {
                     ctx.violate("C02", "read_stability", base(&spec.kind), format!("op {}: node {} ({}) returned {} and then {}", oi, ni, spec.kind, got.show(), again.show()));
                 }
+            }
+            if smodels[ni].is_some() {
+                let kind = spec.kind.as_str();
+                let cmp = check_exp(&sexp[ni], &got, home_of(kind) != "C12");
+                ctx.count_n("n.value_compared", cmp.compared as u64);
+                ctx.count_n("n.ill_conditioned_skipped", cmp.skipped as u64);
+                if let Some((what, detail)) = cmp.bad {
+                    ctx.violate(home_of(kind), &format!("model_{}", what), kind, format!("op {}: node {} ({}) in a graph: {}", oi, ni, kind, detail));
+                }
+                let updated_now = op.code == "UN" && i == ni;
+                if !updated_now && got != prev_outs[ni] && oi > 0 {
+                    ctx.violate("C05", "get_purity", kind, format!("op {} ({}): node {} ({}) changed from {} to {} without being updated", oi, op.code, ni, kind, prev_outs[ni].show(), got.show()));
+                }
+                if kind != "freeze.f" {
+                    if let Out::Err(e) = got {
+                        if slast_in[ni] != Some(Out::Err(e)) {
+                            ctx.violate("C05", "stale_error", kind, format!("op {}: node {} ({}) returns {} but its input at the most recent update returned {}", oi, ni, kind, got.show(), slast_in[ni].map(|o| o.show()).unwrap_or("nothing".into())));
+                        }
+                    }
+                }
+                ctx.sig((ni as u64) << 32 | 0x5000 | got.cat() as u64);
+                outs.push(got);
+                continue;
             }
             let ins: Vec<Out> = spec
                 .ins
@@ -737,6 +887,7 @@ pub fn execute(plan: &Plan, ctx: &mut Ctx) {
                 }
             }
         }
+        prev_outs = outs.clone();
         if ctx.record_trace || true {
             let shown: &[i64] = if op.code == "LQ" { &op.a[..op.a.len().min(3)] } else { &op.a };
             ctx.trace(&format!("{} {} {:?} -> {}", oi, op.code, shown, outs.iter().map(|o| o.show()).collect::<Vec<_>>().join(" | ")));
@@ -752,7 +903,7 @@ pub fn execute(plan: &Plan, ctx: &mut Ctx) {
 fn pick_in(rng: &mut Rng, ty: Ty, upto: usize, specs: &[NodeSpec], leaf_bias: f64) -> String {
     // earlier node of the right type, or a leaf
     // unit-changing quantity nodes are sinks: nothing downstream may add them to something else
-    let sink = |k: &str| matches!(k, "prod.q" | "prod2.q" | "quot.q" | "n2v.q");
+    let sink = |k: &str| matches!(k, "prod.q" | "prod2.q" | "quot.q" | "n2v.q" | "integral.q" | "derivative.q");
     let cands: Vec<usize> = (0..upto).filter(|&i| out_ty(&specs[i].kind) == ty && !sink(&specs[i].kind)).collect();
     if !cands.is_empty() && !rng.chance(leaf_bias) {
         return format!("n{}", rng.pick(&cands));
@@ -999,7 +1150,116 @@ pub fn gen_c16(prop: &str, tier: Tier, rng: &mut Rng, seed: u64, run: u64) -> Pl
     plan
 }
 
+/// W-stream proper: a mixed graph of stateless combinators and stateful streams. The scheduler
+/// re-scripts leaves, updates any stateful node at any time (in any order, repeatedly, or not at
+/// all for many steps) and reads everything after every op.
+pub fn gen_graph(prop: &str, tier: Tier, rng: &mut Rng, seed: u64, run: u64) -> Plan {
+    let mut plan = Plan::new("comb", prop, seed, run);
+    let mut specs: Vec<NodeSpec> = Vec::new();
+    let stateless_f = ["sum.f", "sum2.f", "diff.f", "latest.f", "n2v.f", "if.f", "prod2.f", "n2e.f"];
+    let stateless_q = ["sum.q", "latest.q", "diff.q", "n2e.q"];
+    let stateful: &[&str] = match prop {
+        "C04" => &["pid.f"],
+        "C12" => &["ewma.f", "ewma.q"],
+        "C10" => &["integral.q", "derivative.q"],
+        _ => &["pid.f", "ewma.f", "ewma.q", "integral.q", "derivative.q", "q2f.f", "freeze.f"],
+    };
+    let nn = rng.range(2, 6) as usize;
+    let leaf_bias = *rng.pick(&[0.7, 0.4, 0.2]);
+    for j in 0..nn {
+        let idx = specs.len();
+        let want_stateful = j == nn - 1 || rng.chance(0.35);
+        if want_stateful {
+            let kind = *rng.pick(stateful);
+            let ins = match kind {
+                "q2f.f" => {
+                    // any quantity node, including the unit-changing ones
+                    let cands: Vec<usize> = (0..idx).filter(|&i| out_ty(&specs[i].kind) == Ty::Q).collect();
+                    vec![if !cands.is_empty() && rng.chance(0.7) { format!("n{}", rng.pick(&cands)) } else { pick_q_leaf(rng) }]
+                }
+                "freeze.f" => vec![pick_in(rng, Ty::B, idx, &specs, leaf_bias), pick_in(rng, Ty::F, idx, &specs, leaf_bias)],
+                k if k.ends_with(".q") => vec![pick_in(rng, Ty::Q, idx, &specs, leaf_bias)],
+                _ => vec![pick_in(rng, Ty::F, idx, &specs, leaf_bias)],
+            };
+            for k in ["kp", "ki", "kd", "sp"] {
+                plan.setf(&format!("n{}.{}", idx, k), if rng.chance(0.2) { 0.0 } else { rng.moderate_f32() });
+            }
+            plan.setf(&format!("n{}.s", idx), match rng.below(4) { 0 => 0.0, 1 => 1.0, _ => rng.unit() as f32 });
+            specs.push(NodeSpec { kind: kind.into(), ins, clock: 0, param: 0 });
+        } else {
+            let kind = if rng.chance(0.7) { *rng.pick(&stateless_f) } else { *rng.pick(&stateless_q) };
+            let n = random_node(rng, kind, idx, &specs, leaf_bias, 3);
+            specs.push(n);
+        }
+    }
+    plan.sets("nodes", &nodes_text(&specs));
+    plan.sets("equiv", "");
+    plan.set("qm", rng.range(-2, 2));
+    plan.set("qs", rng.range(-2, 2));
+    let stateful_idx: Vec<usize> = (0..specs.len()).filter(|&i| is_stateful(&specs[i].kind)).collect();
+    let steps = rng.range(2, if tier == Tier::Quick { 14 } else { 32 });
+    let rate = *rng.pick(&[0.0, 0.05, 0.2, 0.4]);
+    let mut t = rng.range(-1_000_000_000_000, 1_000_000_000_000);
+    let (lo, hi) = *rng.pick(&[(1_000i64, 1_000_000i64), (1_000_000, 1_000_000_000), (100_000_000, 100_000_000_000)]);
+    for _ in 0..steps {
+        for _ in 0..rng.range(1, 4) {
+            t += rng.log_uniform(lo, hi);
+            let faulty = rng.chance(rate);
+            match rng.below(10) {
+                0..=5 => {
+                    let i = rng.below(NF as u64) as i64;
+                    if faulty {
+                        if rng.chance(0.5) { plan.push("LFN", &[i]) } else { plan.push("LFE", &[i, rng.range(1, 2)]) }
+                    } else {
+                        plan.push("LF", &[i, t, fb(rng.moderate_f32())]);
+                    }
+                }
+                6 | 7 => {
+                    let i = rng.below(NB as u64) as i64;
+                    if faulty {
+                        if rng.chance(0.5) { plan.push("LBN", &[i]) } else { plan.push("LBE", &[i, rng.range(1, 2)]) }
+                    } else {
+                        plan.push("LB", &[i, t, rng.below(2) as i64]);
+                    }
+                }
+                _ => {
+                    let i = rng.below(2) as i64;
+                    if faulty {
+                        if rng.chance(0.5) { plan.push("LQN", &[i]) } else { plan.push("LQE", &[i, rng.range(1, 2)]) }
+                    } else {
+                        plan.push("LQ", &[i, t, fb(rng.moderate_f32())]);
+                    }
+                }
+            }
+        }
+        if rng.chance(0.3) {
+            plan.push("CK", &[rng.below(NC as u64) as i64, t]);
+        }
+        // schedule: any subset of the stateful nodes, any order, possibly repeated
+        match rng.below(5) {
+            0 => {}
+            1 => {
+                for &i in stateful_idx.iter().rev() {
+                    plan.push("UN", &[i as i64]);
+                }
+            }
+            _ => {
+                for _ in 0..rng.range(1, 2 * stateful_idx.len().max(1) as i64) {
+                    plan.push("UN", &[*rng.pick(&stateful_idx) as i64]);
+                }
+            }
+        }
+        if rng.chance(0.2) {
+            plan.push("RR", &[]);
+        }
+    }
+    plan
+}
+
 pub fn generate(prop: &str, tier: Tier, rng: &mut Rng, seed: u64, run: u64) -> Plan {
+    if run >= C02_ENUM && run % 8 == 7 {
+        return gen_graph(prop, tier, rng, seed, run);
+    }
     gen_c02(prop, tier, rng, seed, run)
 }
 
